@@ -310,6 +310,36 @@ theorem refsOwn_resolvesSome (cfg : Cfg) (s : State) (r : Route) (h : refsOwnGw 
   apply List.any_eq_true.mpr
   exact ⟨p, hp, findGw_of_mem p _ _ g.nn hs.1 (own_gw_in_names _ _ g hg hgs.1.1) hgs.1.2 hgs.2⟩
 
+/-! ### SnippetsFilters -/
+
+theorem marksSnippet_resolves (gws : List NN) (r : Route) (sf : NN) (h : marksSnippet gws r sf = true) :
+    resolvesSome gws r = true ∧ r.kind ≠ .tls ∧ r.nn.ns = sf.ns ∧ sf.name ∈ r.sfRefs := by
+  simp only [marksSnippet, rulesProcessed, Bool.and_eq_true, decide_eq_true_eq, List.contains_iff_mem] at h
+  exact ⟨h.1.1.1.1.2, h.1.1.1.1.1, h.1.2, h.2⟩
+
+theorem any_filter_noop {α : Type} (p q : α → Bool) (l : List α) (h : ∀ x ∈ l, p x = false → q x = false) :
+    (l.filter p).any q = l.any q := by
+  induction l with
+  | nil => rfl
+  | cons x xs ih =>
+    have hxs : ∀ y ∈ xs, p y = false → q y = false := fun y hy => h y (List.mem_cons_of_mem _ hy)
+    cases hp : p x with
+    | true => simp [List.filter_cons, hp, ih hxs]
+    | false => simp [List.filter_cons, hp, h x List.mem_cons_self hp, ih hxs]
+
+/-- dropping routes none of whose parentRefs resolves leaves every `Referenced` flag as it is -/
+theorem referencedSnippets_restrict (gws : List NN) (routes : List Route) (sfs : List NN) (k : Route → Bool)
+    (h : ∀ r ∈ routes, k r = false → resolvesSome gws r = true → False) :
+    referencedSnippets gws (routes.filter k) sfs = referencedSnippets gws routes sfs := by
+  unfold referencedSnippets
+  congr 1
+  funext sf
+  apply any_filter_noop
+  intro r hr hk
+  cases hm : marksSnippet gws r sf with
+  | false => rfl
+  | true => exact absurd (marksSnippet_resolves gws r sf hm).1 (fun hres => h r hr hk hres)
+
 /-! ### policies -/
 
 theorem gatewayExists_names (nn : NN) (pg : PGws) (h : gatewayExists nn pg = true) : nn ∈ allNsNames pg := by
@@ -455,7 +485,8 @@ theorem buildGraph_unfold (cfg : Cfg) (s : State) :
         policies := processPolicies s.policies (gPg cfg s) (gRoutes cfg s) (gSvcs cfg s)
         refSvcs := gSvcs cfg s
         btps := (btpCandidates (gPg cfg s).winner (gRoutes cfg s) s.btps).map (·.nn)
-        snippets := s.snippets } := by
+        snippets := s.snippets
+        refSnippets := referencedSnippets (allNsNames (gPg cfg s)) s.routes s.snippets } := by
   simp only [buildGraph, disabled]
   rfl
 
@@ -515,7 +546,14 @@ theorem buildGraph_restrict (cfg : Cfg) (t : State) (k : Keep) (h : Droppable cf
         simp [this] at hf
   have e0 : disabled cfg (t.restrict k) = disabled cfg t := by
     simp only [disabled, e1]
-  rw [buildGraph_unfold, buildGraph_unfold, e0, e1, e5, e6, e4, e3, e2]
+  have e7 : referencedSnippets (allNsNames (gPg cfg (t.restrict k))) (t.restrict k).routes (t.restrict k).snippets =
+      referencedSnippets (allNsNames (gPg cfg t)) t.routes t.snippets := by
+    rw [e2]
+    exact referencedSnippets_restrict _ t.routes t.snippets k.rt (fun r hr' hk hres => by
+      have hf := hr r hr' hk
+      have := resolvesSome_refsOwn cfg t r hres
+      simp [foreignRoute, this] at hf)
+  rw [buildGraph_unfold, buildGraph_unfold, e0, e1, e5, e6, e7, e4, e3, e2]
   rfl
 
 /-! ### targets -/
@@ -784,16 +822,17 @@ def exCfg : Cfg := ⟨"nginx", "gateway.nginx.org/nginx-gateway-controller"⟩
 
 /-- our class, a second class of ours, a class of another controller; two Gateways of ours (gw0 older),
 one of the other class (oldest of all); routes to the winner, to the ignored one, to the foreign one and a
-shared one; policies and BackendTLSPolicies targeting ours and theirs. -/
+shared one; policies and BackendTLSPolicies targeting ours and theirs; SnippetsFilter `sf` referenced by our hr0 (and
+by the foreign xr), `xsf` referenced by the foreign xr only, `team-a/sf` by nobody (same name, other namespace). -/
 def exState : State :=
   { classes := [⟨"nginx", exCfg.ctlr⟩, ⟨"nginx-2", exCfg.ctlr⟩, ⟨"other", "example.com/other"⟩]
     gws := [⟨⟨"default", "gw0"⟩, "nginx", 5⟩, ⟨⟨"default", "gw1"⟩, "nginx", 7⟩, ⟨⟨"default", "fgw"⟩, "other", 1⟩]
     routes := [
-      ⟨.http, ⟨"default", "hr0"⟩, [⟨none, none, none, "gw0", none⟩], true, [⟨"default", "svc0"⟩]⟩,
-      ⟨.http, ⟨"default", "hr1"⟩, [⟨none, none, some "default", "gw1", some "l0"⟩], true, [⟨"default", "svc1"⟩]⟩,
-      ⟨.http, ⟨"default", "xr"⟩, [⟨none, none, none, "fgw", none⟩], true, [⟨"default", "xsvc"⟩]⟩,
-      ⟨.grpc, ⟨"default", "shared"⟩, [⟨none, none, none, "fgw", none⟩, ⟨none, some "Gateway", none, "gw0", none⟩], true, []⟩,
-      ⟨.tls, ⟨"team-a", "tr"⟩, [⟨none, none, none, "gw0", none⟩, ⟨none, some "Service", some "default", "gw0", none⟩], true, []⟩]
+      ⟨.http, ⟨"default", "hr0"⟩, [⟨none, none, none, "gw0", none⟩], true, [⟨"default", "svc0"⟩], true, ["sf"]⟩,
+      ⟨.http, ⟨"default", "hr1"⟩, [⟨none, none, some "default", "gw1", some "l0"⟩], true, [⟨"default", "svc1"⟩], true, []⟩,
+      ⟨.http, ⟨"default", "xr"⟩, [⟨none, none, none, "fgw", none⟩], true, [⟨"default", "xsvc"⟩], true, ["xsf", "sf"]⟩,
+      ⟨.grpc, ⟨"default", "shared"⟩, [⟨none, none, none, "fgw", none⟩, ⟨none, some "Gateway", none, "gw0", none⟩], true, [], true, []⟩,
+      ⟨.tls, ⟨"team-a", "tr"⟩, [⟨none, none, none, "gw0", none⟩, ⟨none, some "Service", some "default", "gw0", none⟩], true, [], true, []⟩]
     policies := [
       ⟨"ClientSettingsPolicy", ⟨"default", "csp"⟩, [⟨gatewayGroup, "Gateway", "gw0"⟩], 0⟩,
       ⟨"ClientSettingsPolicy", ⟨"default", "xcsp"⟩, [⟨gatewayGroup, "Gateway", "fgw"⟩], 0⟩,
@@ -801,7 +840,7 @@ def exState : State :=
       ⟨"UpstreamSettingsPolicy", ⟨"default", "usp"⟩, [⟨"core", "Service", "svc0"⟩], 16⟩,
       ⟨"UpstreamSettingsPolicy", ⟨"default", "xusp"⟩, [⟨"", "Service", "xsvc"⟩], 0⟩]
     btps := [⟨⟨"default", "btp"⟩, ["svc0"], false⟩, ⟨⟨"default", "xbtp"⟩, ["xsvc"], false⟩]
-    snippets := [⟨"default", "sf"⟩] }
+    snippets := [⟨"default", "sf"⟩, ⟨"default", "xsf"⟩, ⟨"team-a", "sf"⟩] }
 
 /-- drops exactly the foreign objects of `exState` -/
 def exKeep : Keep :=
